@@ -63,7 +63,7 @@ Lemma core_fail all rk assigned rv ce loie f o s e :
   end.
 Proof.
   intros Hr. unfold lock_rpc_core. rewrite Hr.
-  destruct s as [a1 a2 a3 a4 a5 ag a7 a8 a9 a10 a11 a12 a13 a14]. cbn [agg set_store flags].
+  destruct s as [a1 a2 a3 a4 a5 ag a7 a8 a9 a10 a11 a12 a13 a14 a15]. cbn [agg set_store flags].
   destruct ag as [a|]; destruct assigned; destruct (many rk || may_be_locked e); simpl; split; auto;
     eexists; split; try reflexivity; simpl; auto.
 Qed.
@@ -74,11 +74,11 @@ Lemma core_ok all rk assigned rv ce loie f o s :
   match agg s with
   | None => agg s' = None /\ flags s' = flags s ++ kept loie (lo_absent o) rk
   | Some a => flags s' = flags s /\ exists a', agg s' = Some a' /\ aprim a' = aprim a /\
-                cur a' = cur_add (mkE rv ce (eff_lwc s rk o)) (kept loie (lo_absent o) rk) (cur a)
+                cur a' = cur_add (fun k => mkE rv ce (eff_lwc s rk o) (ex_of true rv ce (eff_lwc s rk o) (lo_absent o) k)) (kept loie (lo_absent o) rk) (cur a)
   end.
 Proof.
   intros Hr. unfold lock_rpc_core, finish_lock. rewrite Hr.
-  destruct s as [a1 a2 a3 a4 a5 ag a7 a8 a9 a10 a11 a12 a13 a14]. cbn [agg set_store flags].
+  destruct s as [a1 a2 a3 a4 a5 ag a7 a8 a9 a10 a11 a12 a13 a14 a15]. cbn [agg set_store flags].
   destruct ag as [a|]; destruct (assigned && loie); try destruct a8 as [q|]; cbn [primary set_agg set_store];
     repeat match goal with |- context [if memk ?x ?y then _ else _] => destruct (memk x y) end; simpl;
     try (split; reflexivity); split; try reflexivity; eexists; split; try reflexivity; simpl; auto.
@@ -153,7 +153,7 @@ Lemma prim_lock_pess keys rv ce loie f o s :
   prim_ok (fst (lock_pess keys rv ce loie f o s)).
 Proof.
   intros Hok Hne Hnc Hts. destruct keys as [|k0 kr]; [congruence|]. unfold lock_pess.
-  destruct s as [a1 a2 a3 a4 a5 ag a7 a8 a9 a10 a11 a12 a13 a14].
+  destruct s as [a1 a2 a3 a4 a5 ag a7 a8 a9 a10 a11 a12 a13 a14 a15].
   cbn [primary set_committer]. destruct a8 as [p|].
   - (* the primary was chosen by an earlier call *)
     cbn [set_fu agg set_committer set_primary set_agg]. destruct ag as [a|].
@@ -205,7 +205,7 @@ Qed.
 
 (* ---- the other steps ---- *)
 Ltac open_state s :=
-  destruct s as [a1 a2 a3 a4 a5 ag a7 a8 a9 a10 a11 a12 a13 a14].
+  destruct s as [a1 a2 a3 a4 a5 ag a7 a8 a9 a10 a11 a12 a13 a14 a15].
 
 Lemma prim_agg_done s : prim_ok s -> prim_ok (agg_done s).
 Proof.
@@ -273,12 +273,12 @@ Proof.
   destruct (ka s); auto; revert H0; apply prim_same; reflexivity.
 Qed.
 
-Lemma prim_finish_lock rk rv ce loie absent lwc s : prim_ok s -> prim_ok (finish_lock rk rv ce loie absent lwc s).
+Lemma prim_finish_lock rk rv ce loie absent lwc hv s : prim_ok s -> prim_ok (finish_lock rk rv ce loie absent lwc hv s).
 Proof.
   intros Hok. unfold finish_lock. open_state s. cbn [agg]. destruct ag as [a|]; simpl; intros p Hp; simpl in Hp.
   - destruct (Hok p Hp) as [Hin|(b & Eb & Hb & Hin)]; [left; exact Hin|right].
     simpl in Eb. inversion Eb; subst b. eexists. split; [reflexivity|]. simpl. split; auto.
-    fold (cur_add (mkE rv ce lwc) (kept loie absent rk) (cur a)). apply cur_add_keys. auto.
+    change (fold_left _ (kept loie absent rk) (cur a)) with (cur_add (fun k => mkE rv ce lwc (ex_of hv rv ce lwc absent k)) (kept loie absent rk) (cur a)). apply cur_add_keys. auto.
   - destruct (Hok p Hp) as [Hin|(b & Eb & _)]; [left; simpl; apply in_or_app; auto|discriminate].
 Qed.
 
@@ -290,7 +290,7 @@ Proof.
   { unfold exit_agg. destruct (agg s); auto. destruct (many ks); auto. apply prim_agg_done. auto. }
   simpl in Hts. set (s1 := exit_agg ks s) in *.
   destruct (negb (pess s1) && match agg s1 with Some _ => true | None => false end); [exact H1|].
-  destruct (lo_early o); [exact H1|].
+  destruct (early_exists _ ks); [exact H1|].
   destruct (filter (need_lock s1) ks) as [|k0 r0] eqn:Ek; [exact H1|]. rewrite <- Ek.
   destruct (loie && negb rv); [exact H1|].
   destruct (loie && (negb (committer s1) || match primary s1 with None => true | Some _ => false end) && many (filter (need_lock s1) ks)); [exact H1|].
@@ -309,6 +309,8 @@ Proof.
   - revert H. apply prim_same; reflexivity.
   - revert H. apply prim_same; reflexivity.
   - revert H. apply prim_same; reflexivity.
+  - revert H. apply prim_same; reflexivity.
+  - destruct (findk k (written s)); auto; revert H; apply prim_same; reflexivity.
   - apply prim_lock_keys; auto.
   - apply prim_agg_start; auto.
   - apply prim_agg_retry; auto.
